@@ -14,6 +14,7 @@ func init() {
 	harn.Register("C01_Dir", RunDir)
 	harn.Register("C04_Untrusted", RunUntrusted)
 	harn.Register("C01_Concurrent", RunConc)
+	harn.Register("C01_Collide", RunCollide)
 	harn.Register("C04_Concurrent", RunConc)
 }
 
@@ -34,6 +35,16 @@ func TestC01_Dir(t *testing.T) { harn.Check(t, "C01_Dir", GenDirCase, RunDir) }
 
 func TestC01_Concurrent(t *testing.T) { harn.Check(t, "C01_Concurrent", GenConcValid, RunConc) }
 func TestC04_Concurrent(t *testing.T) { harn.Check(t, "C04_Concurrent", GenConcHostile, RunConc) }
+
+// TestC01_Collisions decodes, one after the other, messages whose strings collide under common 32-bit hashes.
+func TestC01_Collisions(t *testing.T) {
+	n := 0
+	for _, c := range findCollisions(400000, 3) {
+		n++
+		harn.RunOne(t, "C01_Collide", CollideCase{Hash: c.Hash, A: c.A, B: c.B}, RunCollide)
+	}
+	harn.Count("collision_pairs", n)
+}
 
 func FuzzDecodeVsRef(f *testing.F) {
 	for _, s := range seedCorpus() {
